@@ -843,7 +843,9 @@ func (mvcc *MVCCLevelDB) Prewrite(req *kvrpcpb.PrewriteRequest) []error {
 		var err error
 		// no need to check insert values for pessimistic transaction.
 		op := m.GetOp()
-		if (op == kvrpcpb.Op_Insert || op == kvrpcpb.Op_CheckNotExists) && forUpdateTS == 0 {
+		// A retried prewrite finds the transaction's own lock: it is answered like the first attempt,
+		// without repeating the existence check (which would report the own lock or the own write).
+		if (op == kvrpcpb.Op_Insert || op == kvrpcpb.Op_CheckNotExists) && forUpdateTS == 0 && !mvcc.hasLockOf(m.Key, startTS) {
 			v, err := mvcc.getValue(m.Key, startTS, kvrpcpb.IsolationLevel_SI, req.Context.ResolvedLocks)
 			if err != nil {
 				errs = append(errs, err)
@@ -881,6 +883,17 @@ func (mvcc *MVCCLevelDB) Prewrite(req *kvrpcpb.PrewriteRequest) []error {
 	}
 
 	return errs
+}
+
+// hasLockOf reports whether key is locked by the transaction startTS.
+func (mvcc *MVCCLevelDB) hasLockOf(key []byte, startTS uint64) bool {
+	iter := newIterator(mvcc.getDB(""), &util.Range{
+		Start: mvccEncode(key, lockVer),
+	})
+	defer iter.Release()
+	dec := lockDecoder{expectKey: key}
+	ok, err := dec.Decode(iter)
+	return err == nil && ok && dec.lock.startTS == startTS
 }
 
 func checkConflictValue(iter *Iterator, m *kvrpcpb.Mutation, forUpdateTS uint64, startTS uint64, getVal bool, assertionLevel kvrpcpb.AssertionLevel, lockOnlyIfExists bool, allowLockWithConflict bool) ([]byte, error) {
